@@ -326,6 +326,8 @@ class SourceFile:
         for depth, el in enumerate(path_elems):
             el = el.strip()
             kind, _, rest = el.partition(" ")
+            if el.startswith("impl<") or el.startswith("impl "):
+                kind = "impl"
             cands = []
             for it in items:
                 if kind in ("impl", "trait") and it.kind == kind:
